@@ -11,7 +11,7 @@ ID = 'C07'
 MODEL_TARGETS = ['theories/C07/Run.vo']
 PROOF_TARGETS = ['theories/C07/Properties.vo']
 PROPERTIES_V = 'theories/C07/Properties.v'
-IMPORTS = 'Require Import FV.Gen.C07 FV.C07.Model FV.C07.Run.\nLocal Open Scope N_scope.'
+IMPORTS = 'Require Import FV.Gen.C07 FV.C07.Model FV.C07.Conc FV.C07.Run.\nLocal Open Scope N_scope.'
 CASE_TYPE = 'case'
 CHECK = 'check_case'
 SHARD_SIZE = 100
@@ -26,12 +26,19 @@ RULE = ('byte streams made of 1..7 request lines drawn from a grammar of SECoP r
         'connections talking to the same dispatcher between two segments; plus direct encode_msg_frame / decode_msg cases. '
         'A stream case is non-trivial when at least one complete line was answered; distinct = distinct (segments, other '
         'connections) resp. distinct codec inputs; a few threaded runs in which a second thread sends events through '
-        'send_reply while the fake socket delivers every frame in two halves')
+        'send_reply while the fake socket delivers every frame in two halves; concurrent send path (kind conc): 1..3 real '
+        'connections (handler threads answering scripted requests) and 1..3 sender threads (send_reply directly, '
+        'Dispatcher.broadcast_event, Dispatcher.send_log_msg, Module.announceUpdate) as real threads under the deterministic '
+        'scheduler harness/dsched.py with a seeded random schedule; the fake socket takes each frame in partial writes of '
+        'scripted sizes with a switch point before every write, and in 40 % of the cases the socket of one connection fails at '
+        'a scripted write (BrokenPipeError, OSError, time-out, ConnectionResetError, ValueError, RuntimeError); the executed '
+        'schedule is replayed by the Coq model (Conc.v), which must produce the same byte stream on every socket')
 ASSUMPTIONS = [
     'json.loads / json.dumps / str(exception) are CPython or message text: supplied to the model as recorded data (json verdict per data string, reply data text = what the json.dumps call inside encode_msg_frame returned, error text cut out of it)',
     'law of the json.dumps oracle, evaluated on every case by check_case (premise of C07_reply_ascii_data, tied to the source by the fact dumps_ascii_only): the data texts are printable ASCII',
     'the bodies of Dispatcher.handle_<x> are oracles (reply data, messages sent, exception class); their reply action and specifier rule are read off the source by the translator',
-    'the fake socket never fails in sendall and honours the recv size; detailed_errors is False; other connections run between two recv() calls of the observed one (socketserver threading, kernel buffers are not covered)',
+    'stream cases: the fake socket never fails in sendall and honours the recv size; detailed_errors is False; other connections run between two recv() calls of the observed one (socketserver threading, kernel buffers are not covered)',
+    'conc cases: thread switches happen at lock acquisitions, before every partial write of sendall and at recv (harness/dsched.py: one thread runs at a time; instruction-level interleaving inside python statements is not explored); a failing socket stays failed; the schedule given to the model is the one observed (calls of send_reply, lock acquisitions, partial writes, failures in execution order)',
     'lines counted as replies are those whose action is not an event (update, log, _ comment lines; error_update unless the request action is update)',
 ]
 
@@ -443,6 +450,9 @@ def run_case(case):
         return run_stream_case(case)
     if kind == 'threads':
         return run_threads_case(case)
+    if kind == 'conc':
+        from harness import c07conc
+        return c07conc.run_conc(_setup(), case)
     env = _setup()
     iface = env['iface']
     if kind == 'encode':
@@ -689,6 +699,9 @@ def oracle(case, obs):
         return fails
     if case['kind'] == 'decode':
         return fails
+    if case['kind'] == 'conc':
+        conc_oracle(case, obs, fail)
+        return fails
     if case['kind'] == 'threads':
         if obs['raised'] or obs['problems']:
             fail('terminated', f'threads: {obs["raised"]} {obs["problems"]}')
@@ -782,6 +795,89 @@ def oracle(case, obs):
         if norm_frames(got, drop_events=False) != norm_frames(want, drop_events=False):
             fail('leak', 'another connection received different lines than when it is alone on the node')
     return fails
+
+
+def spec_frame(triple):
+    """the line a message triple stands for, by the letter of the protocol (data text as json.dumps gave it)"""
+    a, sp, d = triple
+    return ' '.join([a, sp or '', d or '']).strip().encode('utf-8')
+
+
+def conc_oracle(case, obs, fail):
+    """asynchronous messages never split another line; a failing send neither stops other connections nor leaves the
+    send lock held - judged on what the sockets received and on the messages handed to send_reply"""
+    if obs['status'] != 'ok':
+        fail('send-lock', f'run ended with status {obs["status"]} (threads parked at {obs.get("blocked_at_end")}): a lock is '
+             'never released or a thread never returns')
+        return
+    if obs['raised'] or obs['thread_errors'] or obs['sender_exc']:
+        fail('terminated', f'a thread was terminated by an exception of the send path: handlers {obs["raised"]}, '
+             f'threads {obs["thread_errors"]}, senders {obs["sender_exc"]}')
+    if any(obs['locked']):
+        fail('send-lock', f'send_lock of connection(s) {[c for c, x in enumerate(obs["locked"]) if x]} still held at the end')
+    if obs['leftover']:
+        fail('leak', 'connections still registered at the dispatcher after all handlers ended')
+    calls = [e for e in obs['events'] if e[0] == 'call' and e[3] is not None and e[4] != 'encode-raised']
+    for c, shex in enumerate(obs['streams']):
+        stream = unhx(shex)
+        pending = {}
+        for e in calls:
+            if e[2] == c:
+                pending.setdefault(e[1], []).append(e[3])
+        pieces = stream.split(b'\n')
+        failed = c in obs['failed'] or not obs['running'][c]
+        # the lines must be an interleaving of the threads' message sequences (identical messages of two threads make
+        # the attribution ambiguous: search all attributions)
+        names = sorted(pending)
+        queues = [[spec_frame(m) for m in pending[t]] for t in names]
+        lines_ = pieces[:-1]
+        start = tuple(0 for _ in names)
+        rest = pieces[-1]
+        stack, seen, best, final, finals = [start], {start}, start, None, []
+        while stack:
+            pos = stack.pop()
+            i = sum(pos)
+            if i > sum(best):
+                best = pos
+            if i == len(lines_):
+                finals.append(pos)
+                continue
+            for k, q in enumerate(queues):
+                if pos[k] < len(q) and q[pos[k]] == lines_[i]:
+                    nxt = pos[:k] + (pos[k] + 1,) + pos[k + 1:]
+                    if nxt not in seen:
+                        seen.add(nxt)
+                        stack.append(nxt)
+        for pos in finals:      # prefer an attribution under which the cut frame (if any) is some thread's next message
+            if final is None or any(pos[k] < len(q) and q[pos[k]].startswith(rest) for k, q in enumerate(queues)):
+                final = pos
+        if final is None:
+            ln = lines_[sum(best)]
+            fail('split-line', f'connection {c}: the peer reads the line {ln[:80]!r} - it is not the next message of any '
+                 f'thread (next: {[q[best[k]][:40] for k, q in enumerate(queues) if best[k] < len(q)][:4]})', conn=c)
+            continue
+        pending = {t: pending[t][final[k]:] for k, t in enumerate(names)}
+        nreply = 0
+        for ln in lines_:
+            p, why = parse_frame(ln + b'\n')
+            if p is None:
+                fail('wellformed', f'connection {c}: line {ln[:80]!r}: {why}', conn=c)
+            elif p[0] not in EVENTS:
+                nreply += 1
+        if failed:
+            if rest and not any(q and spec_frame(q[0]).startswith(rest) for q in pending.values()):
+                fail('split-line', f'connection {c}: after the socket failure the stream ends with {rest[:60]!r}, which is not '
+                     'the beginning of a message handed to send_reply', conn=c)
+        else:
+            if rest:
+                fail('split-line', f'connection {c}: stream ends inside a line: {rest[:60]!r}', conn=c)
+            lost = {t: len(q) for t, q in pending.items() if q}
+            if lost:
+                fail('split-line', f'connection {c}: messages handed to send_reply never arrived: {lost}', conn=c)
+            nreq = len(complete_lines(b''.join(unhx(x) for x in case['conns'][c])))
+            if nreply != nreq:
+                fail('one-reply', f'connection {c} (no failure on its socket) answered {nreply} of {nreq} request lines'
+                     + (f' while the socket of connection {obs["failed"]} failed' if obs['failed'] else ''), conn=c)
 
 
 def check_reply(rq, reply):
@@ -879,6 +975,15 @@ def g_hres(ln):
 
 def encode(case, obs):
     k = case['kind']
+    if k == 'conc':
+        from harness import c07conc
+        progs, sched = c07conc.model_inputs(case, obs)
+        gp = '[' + ';'.join('[' + ';'.join(f'({c}%nat, {g_msg(t)})' for c, t in pr) + ']' for pr in progs) + ']'
+        gs = '[' + ';'.join(f'({t}%nat, Write {a[1]}%nat)' if a[0] == 'W' else f'({t}%nat, Fail {a[1]}%nat)'
+                            for t, a in sched) + ']'
+        socks = '[' + ';'.join(g_bytes(unhx(x)) for x in obs['streams']) + ']'
+        run = '[' + ';'.join('true' if r else 'false' for r in obs['running']) + ']'
+        return f'(CConc {gp} {gs} {len(obs["streams"])}%nat {socks} {run})'
     if k == 'threads':      # the interleaving is not an input of the model: compare the event frame only
         return f'(CEncode ({g_str("update")}, {g_ostr("m:value")}, {g_ostr("[0, {}]")}) (Some {g_bytes(b"update m:value [0, {}]" + bytes([10]))}))'
     if k == 'encode':
@@ -917,6 +1022,23 @@ def nontrivial_key(case, obs):
 
 
 def outcome_labels(case, obs):
+    if case['kind'] == 'conc':
+        labs = ['conc', f'conc:status-{obs["status"]}']
+        if obs['failed']:
+            labs.append('conc:socket-failure')
+            if len(obs['streams']) > 1:
+                labs.append('conc:failure-with-other-connections')
+        held = {}
+        for e in obs['events']:
+            if e[0] == 'acq':
+                held[e[2]] = e[1]
+            elif e[0] == 'rel':
+                held.pop(e[2], None)
+            elif e[0] == 'call' and e[2] in held and held[e[2]] != e[1]:
+                labs.append('conc:call-while-other-thread-inside-sendall')
+        if any(e[0] == 'raise' for e in obs['events']):
+            labs.append('conc:send_reply-raised')
+        return sorted(set(labs))
     if case['kind'] == 'threads':
         return ['threads']
     if case['kind'] != 'stream':
@@ -940,6 +1062,11 @@ def outcome_labels(case, obs):
 
 
 def sample_repr(case, obs):
+    if case['kind'] == 'conc':
+        return {'case': {k: v for k, v in case.items() if k != 'decisions'},
+                'obs': {'streams': [repr(unhx(x))[:300] for x in obs['streams']], 'running': obs['running'],
+                        'status': obs['status'], 'failed': obs['failed'], 'nsteps': obs['nsteps'],
+                        'raised': obs['raised'], 'sender_exc': obs['sender_exc']}}
     if case['kind'] != 'stream':
         return {'case': case, 'obs': {k: v for k, v in obs.items() if k != 'json'}}
     return {'segments': [None if c is None else repr(unhx(c))[:200] for c in case['chunks']][:12],
@@ -1215,9 +1342,48 @@ def unicode_cases(rng, n):
     return cases
 
 
+CONC_SCRIPTS = [b'activate\n', b'ping a\nhelp\n', b'read m:value\nping b\n', b'change m:target 3\nping c\n', b'\n',
+                b'activate m\nread m2:value\n', b'*IDN?\ndescribe\n', b'ping x\n', b'activate\nchange m2:target 5\n', b'']
+CONC_SIZES = [1, 2, 3, 5, 8, 13, 20, 64, 1000]
+CONC_EXC = ['BrokenPipeError', 'OSError', 'timeout', 'ConnectionResetError', 'ValueError', 'RuntimeError']
+
+
+def conc_case(rng, k):
+    nconn = rng.choice([1, 1, 2, 2, 3])
+    conns = []
+    for _ in range(nconn):
+        script = rng.choice(CONC_SCRIPTS)
+        cuts = sorted(rng.sample(range(1, len(script)), min(len(script) - 1, rng.choice([0, 0, 1, 2])))) if len(script) > 1 else []
+        conns.append([hx(script[a:b]) for a, b in zip([0] + cuts, cuts + [len(script)]) if b > a])
+    writes = [[rng.choice(CONC_SIZES) for _ in range(rng.randint(1, 4))] for _ in range(nconn)]
+    senders = []
+    serial = 0
+    for j in range(rng.choice([1, 2, 2, 3])):
+        prog = []
+        for _ in range(rng.randint(1, 5)):
+            serial += 1
+            kind = rng.choice(['send', 'send', 'bcast', 'log', 'update'])
+            if kind == 'send':
+                prog.append(['send', rng.randrange(nconn), ['update', rng.choice(['m:value', 'm2:target']),
+                                                            [serial, {'t': 1.5, 's': f's{j}'}]]])
+            elif kind == 'bcast':
+                prog.append(['bcast', ['update', 'm:status', [[100, f'n{serial}'], {}]]])
+            elif kind == 'log':
+                prog.append(['log', rng.randrange(nconn), rng.choice(['m', 'm2']), rng.choice(['info', 'debug', 'error']),
+                             f'text {serial} \u00e9 "q"'])
+            else:
+                prog.append(['update', rng.choice(['m', 'm2']), serial])
+        senders.append(prog)
+    case = {'kind': 'conc', 'conns': conns, 'writes': writes, 'senders': senders, 'seed': rng.randrange(1 << 30),
+            'stick': rng.choice([0.0, 0.3, 0.6, 0.8]), 'n': k}
+    if rng.random() < 0.4:
+        case['fail'] = {str(rng.randrange(nconn)): [rng.randrange(0, 14), rng.choice(CONC_EXC)]}
+    return case
+
+
 def gen_cases(seed, tier):
     rng = random.Random(seed * 1000003 + 7)
-    n_stream = {'quick': 2000, 'thorough': 14000, 'search': 30000}[tier]
+    n_stream = {'quick': 1700, 'thorough': 14000, 'search': 30000}[tier]
     n_codec = {'quick': 1400, 'thorough': 6000, 'search': 5000}[tier]
     cases = [stream_case(rng) for _ in range(n_stream)]
     cases.extend(codec_cases(rng, n_codec))
@@ -1226,6 +1392,9 @@ def gen_cases(seed, tier):
     for k in range({'quick': 12}.get(tier, 60)):
         cases.append({'kind': 'threads', 'chunks': [hx(b'help\nping a\n'), hx(b'\nping b\nhelp\n')][:1 + k % 2],
                       'pause': [0.0003, 0.001, 0.0001][k % 3], 'n': k})
+    crng = random.Random(seed * 7919 + 13)
+    for k in range({'quick': 120, 'thorough': 1500, 'search': 1500}[tier]):
+        cases.append(conc_case(crng, k))
     # exhaustive segmentations of short streams
     limit = 9 if tier == 'quick' else 12
     for s in SHORT_STREAMS:
